@@ -44,12 +44,15 @@ func c07Fixed(c *fw.Ctx, i int) {
 	for lo := 0; lo < 256; lo++ {
 		s := uint16(i<<8 | lo)
 		seq := rtp.NewFixedSequencer(s)
+		other := rtp.NewFixedSequencer(^s) // an unrelated sequencer used in between: instances share nothing
 		if r := seq.RollOverCount(); r != 0 {
 			c.Fail("C07/sequential/initial-rollover-count", fmt.Sprintf("a new fixed sequencer reports RollOverCount %d", r), fw.W("start", s))
 			return
 		}
 		zeros := uint64(0)
 		for k := 0; k < 9; k++ {
+			other.NextSequenceNumber()
+			other.RollOverCount()
 			v := seq.NextSequenceNumber()
 			c.Evals(1)
 			want := s + uint16(k)
